@@ -38,6 +38,14 @@ type Op struct {
 	// ("before" | "after" | "partial:K": error with nothing / everything / the first K batch items applied)
 	H     int    `json:"h,omitempty"`
 	Fault string `json:"fault,omitempty"`
+	// GetBatch only: the caller passes again the items slice of its latest earlier GetBatch with the same
+	// partition key and clustering columns, Ok and *Data left as that call set them (callers re-use item slices;
+	// a storage must set Ok and Data of every item on every call). Honoured by Session.Exec; ignored when there
+	// is no such earlier call
+	Reuse bool `json:"reuse,omitempty"`
+	// used by C07 only: the op is applied to the storage directly, not through the cache (what an earlier run of
+	// the process did: the cache starts cold over whatever the storage holds)
+	Raw bool `json:"raw,omitempty"`
 }
 
 type History struct {
@@ -125,8 +133,21 @@ func (o *Op) coq() string {
 	panic("bad op " + o.Op)
 }
 
+// Session is the caller's side of one run of a history against one storage instance: it keeps the GetBatch
+// item slices so that a later GetBatch marked Reuse can pass the same slice again
+type Session struct {
+	batches map[string][]istorage.GetBatchItem
+}
+
+func NewSession() *Session { return &Session{batches: map[string][]istorage.GetBatchItem{}} }
+
 // Exec runs one op on the storage and returns the canonical observed output (a Coq `sout` term)
 func Exec(st istorage.IAppStorage, clock *kit.Clock, o *Op) string {
+	return NewSession().Exec(st, clock, o)
+}
+
+// Exec runs one op of the session's history on the storage (see the package-level Exec)
+func (ss *Session) Exec(st istorage.IAppStorage, clock *kit.Clock, o *Op) string {
 	ctx := context.Background()
 	rows := func(read func(context.Context, []byte, []byte, []byte, istorage.ReadCallback) error) string {
 		var items []string
@@ -179,12 +200,17 @@ func Exec(st istorage.IAppStorage, clock *kit.Clock, o *Op) string {
 		}
 		return "RGet " + optBytes(ok, data)
 	case "GetBatch":
-		items := make([]istorage.GetBatchItem, len(o.CCs))
-		bufs := make([][]byte, len(o.CCs))
-		for i, c := range o.CCs {
-			bufs[i] = []byte("junk")
-			items[i] = istorage.GetBatchItem{CCols: unhex(c), Data: &bufs[i]}
+		key := o.PK + "|" + strings.Join(o.CCs, ",")
+		items := ss.batches[key]
+		if !o.Reuse || items == nil {
+			items = make([]istorage.GetBatchItem, len(o.CCs))
+			bufs := make([][]byte, len(o.CCs))
+			for i, c := range o.CCs {
+				bufs[i] = []byte("junk")
+				items[i] = istorage.GetBatchItem{CCols: unhex(c), Data: &bufs[i]}
+			}
 		}
+		ss.batches[key] = items
 		if err := st.GetBatch(unhex(o.PK), items); err != nil {
 			return "RErr"
 		}
@@ -254,8 +280,9 @@ func run(h *History) (kit.Case, error) {
 	ops := make([]string, len(h.Ops))
 	outs := make([]string, len(h.Ops))
 	tags := map[string]bool{h.Backend: true}
+	ss := NewSession()
 	for i, o := range h.Ops {
-		o.Out = Exec(st, clock, o)
+		o.Out = ss.Exec(st, clock, o)
 		ops[i] = o.coq()
 		outs[i] = o.Out
 		tags["op:"+o.Op] = true
@@ -263,7 +290,7 @@ func run(h *History) (kit.Case, error) {
 			tags["out:err"] = true
 		}
 	}
-	for _, t := range probeTags(h) {
+	for _, t := range append(probeTags(h), pairTags(h)...) {
 		tags[t] = true
 	}
 	var tl []string
